@@ -314,12 +314,21 @@ func jsonOrString(text string) string {
 func (p c10) bytesCase(c *fw.Case) {
 	r := c.R
 	var text string
-	switch r.IntN(5) {
-	case 0, 1:
+	switch k := r.IntN(5); {
+	case r.IntN(25) == 0:
+		// a pointer reference whose array index sits around 2^31 / 2^63 / 2^64 (or is a valid small one), into an existing array
+		kw := gen.Pick(r, []string{"allOf", "anyOf", "oneOf", "prefixItems"})
+		idx := gen.Pick(r, []string{"0", "1", "2", "2147483647", "2147483648", "4294967295", "4294967296", "9223372036854775807", "9223372036854775808", "9223372036854775809",
+			"18446744073709551614", "18446744073709551615", "18446744073709551616", "18446744073709551617", "36893488147419103232", "99999999999999999999999999", "-1", "-9223372036854775808"})
+		text = `{"$ref":"#/` + kw + `/` + idx + `","` + kw + `":[true,{"type":"integer"}]}`
+		if r.IntN(3) == 0 {
+			text = `{"properties":{"a":{"$ref":"#/$defs/d/` + kw + `/` + idx + `"}},"$defs":{"d":{"` + kw + `":[true,{"type":"integer"}]}}}`
+		}
+	case k <= 1:
 		text = gen.Pick(r, suiteSchemas())
-	case 2:
+	case k == 2:
 		text = gen.Text(gen.Schema(r, gen.SchemaOpts{Draft: gen.Draft(r.IntN(2)), MaxDepth: 3, Refs: true, Uneval: true}))
-	case 3: // every keyword x every JSON type
+	case k == 3: // every keyword x every JSON type
 		m := map[string]json.RawMessage{}
 		for k := 1 + r.IntN(3); k > 0; k-- {
 			m[gen.Pick(r, allKeywords)] = json.RawMessage(gen.Pick(r, confusedValues))
